@@ -65,6 +65,7 @@ var mpArity = map[string]int{
 	"rn":  2, // reserved name: h<hex> style(s|i)
 	"v":   2, // enum value: name number
 	"aa":  1, // option allow_alias = t|f
+	"ms":  1, // option message_set_wire_format = t|f (message body, at this position)
 	"rpc": 5, // name input output clientStreaming(0|1) serverStreaming(0|1)
 }
 
@@ -385,6 +386,12 @@ func (r *mpRenderer) elems(es []mpRec, ind string, depth int) {
 				v = "true"
 			}
 			r.b.WriteString(in + "option allow_alias = " + v + ";\n")
+		case "ms":
+			v := "false"
+			if e.A[0] == "t" {
+				v = "true"
+			}
+			r.b.WriteString(in + "option message_set_wire_format = " + v + ";\n")
 		case "rpc":
 			i, o := e.A[1], e.A[2]
 			if e.A[3] == "1" {
@@ -564,6 +571,12 @@ var mpErrClasses = []mpErrClass{
 	{regexp.MustCompile(`default values are not allowed in proto3`), "p3-default"},
 	{regexp.MustCompile(`field has no label; proto2 requires explicit`), "p2-no-label"},
 	{regexp.MustCompile(`extension fields cannot be 'required'`), "ext-required"},
+	{regexp.MustCompile(`message-set wire format are not allowed with proto3`), "msgset-proto3"},
+	{regexp.MustCompile(`message-set wire format cannot contain non-extension fields`), "msgset-field"},
+	{regexp.MustCompile(`message-set wire format must contain at least one extension range`), "msgset-no-ext-range"},
+	{regexp.MustCompile(`message-set wire format cannot contain scalar extensions`), "msgset-scalar-ext"},
+	{regexp.MustCompile(`message-set wire format cannot contain repeated extensions`), "msgset-repeated-ext"},
+	{regexp.MustCompile(`cannot be defined more than once`), "option-dup"},
 	{regexp.MustCompile(`package name \(with whitespace removed\) must be less than 512`), "pkg-too-long"},
 	{regexp.MustCompile(`package name may not contain more than 100 periods`), "pkg-too-deep"},
 	{regexp.MustCompile(`cycle found in imports`), "import-cycle"},
@@ -689,7 +702,14 @@ func mpProjMsg(t *[]string, prefix string, m *descriptorpb.DescriptorProto) {
 	if m.GetOptions().GetMapEntry() {
 		me = "1"
 	}
-	*t = append(*t, "M", prefix+m.GetName(), me)
+	ms := "-"
+	if m.Options != nil && m.Options.MessageSetWireFormat != nil {
+		ms = "f"
+		if m.Options.GetMessageSetWireFormat() {
+			ms = "t"
+		}
+	}
+	*t = append(*t, "M", prefix+m.GetName(), me, ms)
 	for _, f := range m.Field {
 		mpProjField(t, "f", f)
 	}
@@ -901,7 +921,7 @@ func mpDualClass(msg string) string {
 			return c + "-cross-file"
 		}
 		return c + "-same-file"
-	case "type-unknown", "method-type-unknown":
+	case "type-unknown", "method-type-unknown", "extendee-unknown":
 		if strings.Contains(msg, "resolved to") {
 			return c + "-resolved-undefined"
 		}
@@ -966,6 +986,12 @@ func mpNote(op string) string {
 		return "protoset-laws"
 	}
 	if len(t) >= 3 && t[1] == "Q" {
+		if strings.HasPrefix(t[2], "msgset:") {
+			p := strings.Split(t[2], ":")
+			if len(p) >= 3 {
+				return "msgset-family:opt=" + p[1] + ",at=" + p[2]
+			}
+		}
 		if strings.HasPrefix(t[2], "synth-multi") {
 			return "synth-family:several-optional-fields"
 		}
